@@ -334,6 +334,17 @@ def streams(ctx):
     out.append(Stream(f"fname-exhaustive-len<={L}", ["fname " + hexs(s) for s in _all_strings(L)], kind="exhaustive",
                       exhaustive=True, note="every string over the same alphabet as a field name", nontrivial=nt))
 
+    # characters that are syntax only to byte-level code (same low byte as { } [ ] ! : . or a digit)
+    import lexcommon
+    base = CORPUS_TMPL + REGRESSIONS + list(_all_strings(3))
+    al = list(dict.fromkeys(a for t in base for a in lexcommon.trunc_aliases(t, "{}[]!:.0123456789")))
+    al += ["Żółw: {name}", "ŻŻ{}ŽŽ", "{a}Ż", "Ž{a}", "{Ż}", "{a:Ż}", "{a!Ž}", "{a[Ż]}", "{a.Ž}"]
+    fb = CORPUS_FNAME + list(_all_strings(3))
+    fal = list(dict.fromkeys(a for t in fb for a in lexcommon.trunc_aliases(t, "{}[]!:.0123456789")))
+    out.append(Stream("truncation-aliases", ["tmpl " + hexs(s) for s in al] + ["fname " + hexs(s) for s in fal if fname_hazard(s) is None],
+                      kind="directed", note="corpus and all strings of length <= 3 with one syntax character replaced by a letter "
+                      "that has the same low byte (U+01xx / U+100xx): letters must stay letters", nontrivial=nt))
+
     rng = ctx.rng("random")
     n = 4000 if ctx.quick else 120000
     reqs = []
